@@ -16,6 +16,7 @@ import random
 import re
 from decimal import Decimal
 
+from harness.pyprelude import PreludeKernels
 from vlib.core import Check, Stream, b01, hs, line, opt, out_list, unhs
 
 CLASSES = ["accept", "mime", "lang", "charset"]
@@ -571,10 +572,11 @@ class NegotiationStream(Stream):
 
 CHECK = Check(
     prop="C17",
-    gen=["AcceptTbl"],
-    modules=["WzVerif.Props.C17"],
-    streams=[NegotiationStream()],
+    gen=["AcceptTbl", "PyFns_Accept"],
+    modules=["WzVerif.Props.C17", "WzVerif.Props.C17T"],
+    streams=[NegotiationStream(), PreludeKernels()],
     assumptions=[
+        "Accept._best_single_match / quality / __contains__ / index / find / best_match and LanguageAccept.best_match are regenerated from the source by tools/py2lean.py (Gen/PyFns_Accept.lean) on every run and proved equal to the hand model for all inputs (Props/C17T; the class-specific _specificity / _value_matches and the orders are the fields of the model's Neg structure, Accept(...) is the model's stable sort, the -1 sentinels are parameters assumed <= 0); bestMatch_optimal and lang_zero_never_chosen are restated on the translated loops",
         "float() of a string matched by _q_value_re and float comparison agree with exact decimal arithmetic (q literals below 14 characters; validated by the stream, longer literals are outside the model)",
         "str.lower() is modelled for ASCII text only (non-ASCII headers / offers are checked by the oracle but not compared with the model)",
         "codecs.lookup(name).name is an opaque parameter of the model (alias table computed by the harness with the same library call)",
